@@ -383,6 +383,21 @@ def rule_e(ctx: Ctx) -> None:
                    '' if ok else f'allow={allow}, defuse={defuse}: the new resource falls back to allow=\'all\', defuse=\'remote\'',
                    key=f'{q}|construct|{pos[:1] or kw.get("source")}')
     ctx.floor(rule, 'XMLResource construction sites', n, 10)
+    # parse() rebuilds `self.__class__(**self.get_arguments())`: for a subclass (XmlDocument) the options are descriptors of the
+    # *base* classes, so get_arguments has to look through the whole MRO
+    ga = idx.cls(RES).find_method('get_arguments')
+    if ga is None:
+        raise AnalysisError(f'missing anchor {RES}.get_arguments')
+    src = text(ga.node)
+    subs = [c.name for c in idx.subclasses(idx.cls(RES), strict=True)]
+    whole = '__mro__' in src or '.mro()' in src or 'dir(' in src or 'getmembers' in src
+    own_only = ('__class__.__dict__' in src or 'type(self).__dict__' in src or 'vars(type(self))' in src or 'vars(self.__class__)' in src) and not whole
+    ok = whole or not subs or not own_only
+    if not (whole or own_only):
+        raise AnalysisError(f'UNRECOGNISED-IDIOM {rule} at {ga.loc()}: how get_arguments enumerates the option descriptors')
+    ctx.ob(rule, 'XMLResource.get_arguments collects the option descriptors of the whole class hierarchy (parse() rebuilds subclasses from them)', ga.loc(), ok,
+           '' if ok else f'only the descriptors in the __dict__ of the instance\'s own class are collected: for {subs[0]} that excludes allow, defuse, base_url … - '
+           f'{subs[0]}(…, allow=\'none\', defuse=\'always\').parse(other) loads the new source with allow=\'all\', defuse=\'remote\'', key='get_arguments|mro')
     # RESOURCE_KWARGS names allow and defuse
     doc = idx.module('documents')
     rk = doc.assigns.get('RESOURCE_KWARGS')
